@@ -48,7 +48,7 @@ ASSUMPTIONS = [
     "expected holdings come from the reference call trees of the failing evaluation (vf/ref.py, vf/memo.py)",
     "executor internals (callstack, refstack, is_executing) are peeked through getattr and counted as internal peeks",
 ]
-SIGNATURES = {}
+SIGNATURES = {}       # filled in below (sig_attr_path_depth)
 
 FEAT = gen.Feat(items=True, uncached=True, fail=True, max_top=2, max_child=1, max_cells=4, max_rank=5, depth=2,
                 tick=True, shadow=False, objrefs=False)
@@ -178,6 +178,10 @@ def enumerate_cases(tier, seed):
     for k in (50, 500) + ((5000,) if tier == "thorough" else ()):
         yield {"kind": "depth", "k": k, "ops": []}
     yield {"kind": "survival", "n": 20000 if tier == "quick" else 95000, "ops": []}
+    # chains far below the configured limit through every way a formula can reach the next cells
+    for path in ("name", "ref", "space_attr", "model_attr"):
+        for n in (3000,) + ((30000,) if tier == "thorough" else ()):
+            yield {"kind": "depth_path", "path": path, "n": n, "ops": []}
 
 
 # ----------------------------------------------------------------------------
@@ -262,8 +266,51 @@ def run_survival(case, out):
     return out
 
 
+CALL_PATHS = {"name": "c(x - 1)", "ref": "prev(x - 1)", "space_attr": "_space.c(x - 1)", "model_attr": "_model.S.c(x - 1)"}
+
+
+def run_depth_path(case, out):
+    """a chain of n << limit elements evaluates, whichever way each formula reaches the next element"""
+    reset_session()
+    n = case["n"]
+    m = mx.new_model("D")
+    s = m.new_space("S")
+    s.new_cells("c", "lambda x: %s + 1 if x > 0 else 0" % CALL_PATHS[case["path"]])
+    if case["path"] == "ref":
+        s.prev = s.c
+    mx.set_recursion(100000)        # the library's default (the harness otherwise works with 400)
+    try:
+        v = s.c(n)
+    except Exception as exc:
+        mx.set_recursion(400)
+        return out.fail("depth-path-failed", "a chain of %d elements (formula recursion limit %d) calling the next "
+                        "element as %s raised %s" % (n, 100000, CALL_PATHS[case["path"]],
+                                                     type(mx.get_error() or exc).__name__), path=case["path"])
+    mx.set_recursion(400)
+    if v != n:
+        return out.fail("depth-value", "c(%d) = %r" % (n, v))
+    bad = peek_executor()
+    if bad:
+        return out.fail("executor-not-unwound", "; ".join(bad))
+    out.nontrivial = True
+    out.label("depth_path:" + case["path"])
+    return out
+
+
+def sig_attr_path_depth(case, failure):
+    """KF-C05-2: chains whose formulas reach the next cells through an attribute path (_space.c / _model.S.c) go
+    through Cells.__call__, a C-level slot call whose recursion budget is fixed in Python 3.12"""
+    return (case.get("kind") == "depth_path" and case.get("path") in ("space_attr", "model_attr")
+            and failure.get("oracle") == "depth-path-failed" and "RecursionError" in failure.get("detail", ""))
+
+
+SIGNATURES["attr_path_depth"] = sig_attr_path_depth
+
+
 def run_case(case):
     out = Outcome()
+    if case.get("kind") == "depth_path":
+        return run_depth_path(case, out)
     if case.get("kind") == "depth":
         return run_depth(case, out)
     if case.get("kind") == "survival":
